@@ -374,6 +374,8 @@ def desugar(text, rules, counts):
             text, c = _r_utf8(text)
         elif r == "R-TAKE":
             text, c = _r_take(text)
+        elif r == "R-ASSERTEQ":
+            text, c = _r_asserteq(text)
         elif r == "R-CLOSPEC":
             c = text.count("vx_r:")  # done by closure_specs() with the declared types
         else:
@@ -823,5 +825,23 @@ def closure_specs(text, specs):
         params = ", ".join("%s: %s" % (a, b) for a, b in zip(names, types))
         rep = "|%s| -> (vx_r: %s) ensures vx_r == (%s) { %s }" % (params, sp["ret"], spec_body, body)
         text = text[:po + 1] + rep + text[pc:]
+        n += 1
+    return text, n
+
+
+def _r_asserteq(text):
+    """R-ASSERTEQ: the run-time check `assert_eq!(A, B);` becomes `if !(A == B) { vx_unreachable(); }` where vx_unreachable requires
+    `false`: the verifier has to prove that the assertion can never fail (a failing assert_eq! would be a panic)."""
+    sites = _macro_sites(text, ["assert_eq"])
+    m = mask(text)
+    n = 0
+    for (a, b) in reversed(sites):
+        inner = text[text.index("(", a) + 1:b - 1]
+        parts = _split_commas(inner)
+        if len(parts) < 2:
+            raise SpliceError("R-ASSERTEQ: assert_eq! with fewer than two arguments")
+        e = skip_ws(m, b)
+        semi = 1 if e < len(m) and m[e] == ";" else 0
+        text = text[:a] + "if !(%s == %s) { vx_unreachable(); }" % (parts[0].strip(), parts[1].strip()) + text[e + semi:]
         n += 1
     return text, n
